@@ -211,5 +211,9 @@ def check(run):
                           'dominated by the false edge of (<bytes gathered> > 0)')
     if n_eof < 2:
         run.broke('only %d sites surface a queued packet error (2 confirmed by hand: available, read_some_impl)' % n_eof)
+    run.clause('R9 scatter reads deliver the segment bytes in order: a copy made per receive buffer reads from a source the loop advances (front-erase or running offset)')
+    ncp = engines.copy_sources_advance(run, [f for f in fx.repo_functions() if q.top_function(fx, f).cls == T])
+    if ncp < 1:
+        run.broke('tcp::socket: no copy out of the incoming queue found in a loop (read idiom changed)')
     run.floor('R7', 21)
     run.floor('R2', 5)
